@@ -161,7 +161,9 @@ void one_case(Ctx &c) {
       } else { for (int i = 0; i < 8; i++) rsp.d[i] = c.t.byte(); }   // after a malformed response the server keeps talking nonsense
       bool respond = true;
       if (conforming && step == k) {
-        if (beh == 4) { rsp = Frame::mk(rxid[n], 8, {0x80, (uint8_t)idx, (uint8_t)(idx >> 8), sub, 0x11, 0x22, 0x33, 0x06}); expcode = 0x06332211; willfinish = true; }
+        if (beh == 4) { static const uint32_t AC[8] = {0x06332211u, 0x05040000u, 0x05040001u, 0x08000020u, 0x06020000u, 0x05030000u, 0x06010002u, 0x00000001u};   // incl. the codes the client itself uses
+          uint32_t ac = AC[SplitMix(0xAB07u ^ pseed).next() % 8];                                                 // (derived from the payload seed: no extra tape choice)
+          rsp = Frame::mk(rxid[n], 8, {0x80, (uint8_t)idx, (uint8_t)(idx >> 8), sub, (uint8_t)ac, (uint8_t)(ac >> 8), (uint8_t)(ac >> 16), (uint8_t)(ac >> 24)}); expcode = ac; willfinish = true; }
         else if (beh == 5) respond = false;
         else if (beh >= 6) {
           conforming = false; malformed_cnt++;
@@ -268,7 +270,7 @@ Registrar reg(Prop{
     "C19",
     "Cases: node id 1..100, timer pool 4..16, client(s) 1280h (and 1281h in build n2); sequences of 1..6 back-to-back transfers (upload/download, size 1..2000 incl. 1..4, around 256 and multiples of 256 +- 8, multiples of 7; timeout 1..40 ms; idle gaps 0..11 ticks) against a scripted reference server: "
     "conforming; aborting at step k; silent from step k; answering late but in time; or malformed at step k (wrong toggle, wrong multiplexer, oversized announcement, segments without end, wrong command class, random bytes) and nonsense afterwards. A second request is issued while the client is busy. "
-    "Oracle: exactly one completion callback per accepted request with the right arguments; code 0 and user buffer == server bytes (upload) / server received exactly the user bytes with announced size, toggles and last-segment marking (download); the server's abort code; 0504 0000h and one abort frame at exactly lastrequest + timeout when the server is silent; busy => CO_ERR_SDO_BUSY; "
+    "Oracle: exactly one completion callback per accepted request with the right arguments; code 0 and user buffer == server bytes (upload) / server received exactly the user bytes with announced size, toggles and last-segment marking (download); the server's abort code (from a set that includes 0504 0000h and the other codes the client itself uses: a server abort is never answered); 0504 0000h and one abort frame at exactly lastrequest + timeout when the server is silent; busy => CO_ERR_SDO_BUSY; "
     "A frame that cannot be the awaited response (wrong command specifier for the phase, wrong toggle bit, initiate response or abort for a different multiplexer: the late answer to an earlier transfer) may precede the server's answer: the client either ignores it (no frame, no callback, the transfer completes as without it) or ends the transfer there with a non-zero code - never code 0. "
     "In build n2 the second client runs an expedited transfer of its own concurrently (begun between two steps of the main transfer; completed there, at a later step or after the main transfer; or its server stays silent and it must end with 0504 0000h and an abort frame at exactly its own timeout of 2..61 ms while the main client's timers come and go): neither transfer may disturb the other. "
     "In a fifth of the transfers the application asks for its next transfer from inside the completion callback: refused (busy) or accepted - then that transfer has to complete exactly once with the server's bytes. "
